@@ -10,11 +10,16 @@ __all__ = ['first_and_second_harmonic_function',
            'fit_first_and_second_harmonics', 'fit_upper_harmonic']
 
 
-def _least_squares_fit(optimize_func, parameters):
+def _least_squares_fit(optimize_func, parameters, jacobian=None):
     # call the least squares fitting
     # function and handle the result.
 
-    solution = leastsq(optimize_func, parameters, full_output=True)
+    # The harmonic functions are linear in their coefficients. Their
+    # exact Jacobian is passed to the fitter because a finite-difference
+    # Jacobian (steps of ~1e-8 on coefficients of order 1) vanishes in
+    # the rounding error of intensities larger than ~1e8.
+    solution = leastsq(optimize_func, parameters, Dfun=jacobian,
+                       full_output=True)
 
     if solution[4] > 4:
         raise RuntimeError('Error in least squares fit: ' + solution[3])
@@ -89,8 +94,14 @@ def fit_first_and_second_harmonics(phi, intensities):
         return first_and_second_harmonic_function(
             phi, np.array([x[0], x[1], x[2], x[3], x[4]])) - intensities
 
+    jac = np.array([np.ones(np.shape(phi)), np.sin(phi), np.cos(phi),
+                    np.sin(2 * phi), np.cos(2 * phi)]).T
+
+    def jacobian(x):
+        return jac
+
     return _least_squares_fit(optimize_func, [np.mean(intensities), a1, b1,
-                                              a2, b2])
+                                              a2, b2], jacobian=jacobian)
 
 
 def fit_upper_harmonic(phi, intensities, order):
@@ -131,4 +142,11 @@ def fit_upper_harmonic(phi, intensities, order):
         return (x[0] + x[1] * np.sin(order * phi)
                 + x[2] * np.cos(order * phi) - intensities)
 
-    return _least_squares_fit(optimize_func, [np.mean(intensities), an, bn])
+    jac = np.array([np.ones(np.shape(phi)), np.sin(order * phi),
+                    np.cos(order * phi)]).T
+
+    def jacobian(x):
+        return jac
+
+    return _least_squares_fit(optimize_func, [np.mean(intensities), an, bn],
+                              jacobian=jacobian)
